@@ -624,5 +624,6 @@ harnesses! {
     c10_alias_ri_op18 { prop: C10, feat: "c10", tier: thorough, mode: leaf, unwind: 5, caps: "drop=1" } => |s| c10::bind_alias(s, 18, 19, 2);
     c10_alias_ri_op19 { prop: C10, feat: "c10", tier: thorough, mode: leaf, unwind: 5, caps: "drop=1" } => |s| c10::bind_alias(s, 19, 20, 2);
     c10_alias_ri_op20 { prop: C10, feat: "c10", tier: thorough, mode: leaf, unwind: 5, caps: "drop=1" } => |s| c10::bind_alias(s, 20, 21, 2);
+    c07_hex_4k { prop: X07, feat: "c07", tier: thorough, mode: hex, unwind: 262, caps: "" } => |s| c07::hex_big(s, 4113);
     // (C08: c08.rs is kept for the record - the 3-line instance reached 8 GB after 11 min and is not registered)
 }
